@@ -5,6 +5,7 @@
 From Coq Require Import NArith List.
 Import ListNotations.
 From CXV Require Import Parse.Fold Parse.FoldThms.
+From CXV Require Gen.PinsC12.
 From CXV Require Import Gen.TokTy Parse.Declarator Parse.DeclSpec Parse.EnumList Parse.NsHeader.
 Open Scope N_scope.
 
@@ -54,6 +55,13 @@ Theorem inline_nested_namespace_rejected : forall n m q rest,
   ns_header true (path_toks (n :: m :: q) ++ ktok LBRACE :: rest) = DErr 3.
 Proof. exact inline_nested_rejected. Qed.
 
+(* the functions the hand-written models above mirror (_parse_namespace) are, token for
+   token of their syntax trees, the ones the models were written against: the
+   translator recomputes the digests from the live code and produces Gen/PinsC12.v
+   only when they match *)
+Theorem modelled_functions_are_the_pinned_ones : PinsC12.model_code_pinned = true.
+Proof. exact (eq_refl true). Qed.
+
 Print Assumptions namespace_header_decodes.
 Print Assumptions namespace_alias_decodes.
 Print Assumptions inline_nested_namespace_rejected.
@@ -67,3 +75,4 @@ Example c12_nonvacuous :
   fold_ns ([ENs [7] [EItem 1 1]; EItem 2 2] ++ [ENs [7; 8] [EItem 1 3]; EExtern [EItem 2 4]])
   = NS [(2, 2); (2, 4)] [] [(7, NS [(1, 1)] [] [(8, NS [(1, 3)] [] [])])].
 Proof. vm_compute. reflexivity. Qed.
+Print Assumptions modelled_functions_are_the_pinned_ones.
